@@ -135,6 +135,20 @@ def run_shard(spec, shard):
             cands.append((multiline(inj[0], r), "fault:" + inj[1]))
         big = ["q", "$", ast[2] + [["child", [["index", r.choice([2**53, -(2**53), 2**60])]]]]]
         cands.append((multiline(big, r), "fault:index-range"))
+        # string literals that are rejected while being decoded, after an arbitrary mix of quotes and escapes
+        quote = r.choice("'\"")
+        filler = "".join(r.choice(['"' if quote == "'" else "'", "\\" + quote, "a", "\\n", " ", "\\\\", "\u00e9"]) for _ in range(r.randrange(0, 16)))
+        if r.random() < 0.35:
+            filler = ('"' if quote == "'" else "'") * r.randrange(1, 24)
+        bad = r.choice(["\\uD800", "\\uDC00", "\\uD800\\u0041", "\\u12", "\\u12G4", "\\x", "\x01", "\\uD83D\\uDE0"])
+        lit = quote + filler + bad + r.choice(["", "z"]) + quote
+        pre = r.choice(["$", "$\n", "$ \n .a\n"])
+        cands.append((pre + r.choice(["[%s]", "[?@ == %s]", "[?@.a\n== %s\n]", "[\n%s\n]"]) % lit, "bad-literal"))
+        # messages that echo a very long token
+        n = r.choice([200, 230, 256, 300, 600])
+        long_tok = r.choice(["$[?" + "f" * n + "(@)]", "$[0" + "1" * n + ":]", "$[?@.a == " + "x" * n + "]", "$\n[?\n" + "g" * n + "(1)\n]",
+                             "$[?length(@." + "y" * n + ", 1)]", "$[1:0" + "7" * n + "]", "$.a\n.b[?count(" + "z" * n + ")]"])
+        cands.append((long_tok, "long-token"))
         for q, origin in cands:
             status, got = lib.compile_(q)
             if status == "ok":
